@@ -416,3 +416,74 @@ def dir_heavy_session(rng, conf, nfiles=14):
         lines += ["open_file 2 %s %d" % (hexs(nm), h), "read_all %d 100000" % h, "extents %d" % h, "drop_file %d" % h]
     lines += ["drop_all", "unmount"]
     return head + lines
+
+
+def full_dir_session(rng, variant):
+    """directories with no room for a new entry.  variant "root": a 16-entry FAT12/FAT16 root filled to within 0-3 slots,
+    then creates / create_dirs / renames (inside the root and from a sub-directory into it) that do not fit, stats, a
+    removal and the retries that now fit.  variant "chain": a sub-directory whose last cluster has 0-3 free slots on a
+    volume without a free cluster (one big file takes the rest); the same attempts; then the big file is truncated and
+    the attempts are repeated.  Every failing call must leave tree, structures and counters as they were."""
+    def nslots(name):
+        return (len(name.encode("utf-16-le")) // 2 + 12) // 13 + 1
+    def lname(tag, slots):
+        # a name taking exactly [slots] slots (slots-1 long-name slots)
+        n = 13 * (slots - 2) + rng.range(1, 13) if slots >= 2 else 1
+        return (tag + "_" * n)[:n - 1] + "z" if n > len(tag) else tag[:n]
+    if variant == "root":
+        fat16 = rng.chance(1, 3)
+        fmt = "format 512 4400 512 16 16 2 - - -" if fat16 else "format 512 64 512 12 16 2 - - -"
+        size = (4400 if fat16 else 64) * 512
+        cap = 16; used = 0; target = 0
+        head = ["dev %d 0" % size, "wlog 0", fmt, "pages", "wlog 1", "mount 1 0 lossy"]
+        lines = ["list 0", "create_dir 0 %s 1" % hexs("SUB")]; used += nslots("SUB")
+        lines += ["create_file 1 %s 9" % hexs("inside.txt"), "write_pat 9 700 5", "drop_file 9",
+                  "create_dir 1 %s 2" % hexs("movable dir"), "drop_dir 2"]
+    else:
+        fmt = "format 512 64 512 12 16 2 - - -"; size = 64 * 512
+        cap = 16; used = 2; target = 1
+        head = ["dev %d 0" % size, "wlog 0", fmt, "pages", "wlog 1", "mount 1 0 lossy"]
+        lines = ["list 0", "create_dir 0 %s 1" % hexs("SUB"), "create_file 0 %s 9" % hexs("outside.txt"), "write_pat 9 700 5", "drop_file 9",
+                 "create_dir 0 %s 2" % hexs("movable dir"), "drop_dir 2"]
+    leave = rng.below(4)
+    names = []
+    h = 20
+    while cap - used - leave >= 2:
+        s = min(rng.range(2, 5), cap - used - leave)
+        if cap - used - leave - s == 1:
+            s += 1 if s < 5 else -1
+        nm = lname("f%02d" % len(names), s)
+        if nslots(nm) != s:
+            nm = "f%02d" % len(names) + "_" * (13 * (s - 2) + 2); 
+        names.append(nm); used += nslots(nm)
+        h += 1
+        lines += ["create_file %d %s %d" % (target, hexs(nm), h)]
+        if rng.chance(1, 2):
+            lines += ["write_pat %d %d %d" % (h, rng.range(1, 600), h), ]
+        lines += ["drop_file %d" % h]
+    if variant == "chain":
+        lines += ["create_file 0 %s 8" % hexs("BIG"), "write_pat 8 60000 3", "flush 8", "stats"]
+    src_dir = 1 if variant == "root" else 0
+    src_file = "inside.txt" if variant == "root" else "outside.txt"
+    def attempts(tag):
+        nonlocal h
+        out = []
+        big = "%s does not fit " % tag + "y" * rng.range(30, 60)
+        out += ["create_file %d %s %d" % (target, hexs(big + ".bin"), 90), "list %d" % target,
+                "create_dir %d %s %d" % (target, hexs(big + " dir"), 91), "stats",
+                "create_dir %d %s %d" % (target, hexs("ND" + tag.upper()[:4]), 92), "stats"]
+        if names:
+            out += ["rename %d %s %d %s" % (target, hexs(names[0]), target, hexs(big + " renamed")), "list %d" % target]
+            out += ["rename %d %s %d %s" % (target, hexs(names[-1]), target, hexs(names[-1].upper())), "list %d" % target]
+        out += ["rename %d %s %d %s" % (src_dir, hexs(src_file), target, hexs(big + " moved in")), "list %d" % src_dir,
+                "rename %d %s %d %s" % (src_dir, hexs("movable dir"), target, hexs(big + " dir moved in")), "list %d" % src_dir,
+                "list %d" % target, "stats"]
+        return out
+    lines += attempts("first")
+    if variant == "chain":
+        lines += ["seek 8 start 2000", "truncate 8", "flush 8", "stats"]
+    elif names:
+        lines += ["remove %d %s" % (target, hexs(names[len(names) // 2]))]
+    lines += attempts("again")
+    lines += ["drop_all", "list 0", "list 1", "stats", "unmount", "mount 1 0 lossy", "list 0", "stats", "unmount"]
+    return head + lines
